@@ -284,8 +284,10 @@ def main(argv=None):
     # 4. evidence
     wall = time.time() - t0
     ev = build_evidence(pid, cfg, a, fun, bcc, n_obl, n_dis, n_ref, n_und, violations, known_hits, checker_errors, wall)
-    os.makedirs(os.path.join(VERIF, "evidence"), exist_ok=True)
-    with open(os.path.join(VERIF, "evidence", f"{pid}.json"), "w") as fh:
+    # runs against a scratch copy (--repo DIR: mutants, seeded changes) never touch the committed evidence
+    evdir = os.path.join(VERIF, "evidence") if os.path.realpath(a.repo) == os.path.realpath(REPO) else os.path.join(VERIF, "scratch", "evidence-other-repo")
+    os.makedirs(evdir, exist_ok=True)
+    with open(os.path.join(evdir, f"{pid}.json"), "w") as fh:
         json.dump(ev, fh, indent=1, default=str)
 
     # 5. report
